@@ -101,3 +101,43 @@ func (rs *RuleSets) Get(idx int64) *Spec {
 	}
 	return s
 }
+
+// MacroShapes is the number of ways MacroSpec uses its macros.
+const MacroShapes = 7
+
+// MacroSpec builds specification number idx of the macro family: e1 from
+// pool a is the body of @macro MA, e2 from pool b is a second expression, and
+// shape says how the macro is used (in two rules, twice in one rule, nested in
+// a second macro, under a cardinality, in a fragment, next to a class
+// difference). Size: len(a.All) * len(b.All) * MacroShapes.
+func MacroSpec(a, b *Pool, idx int64) *Spec {
+	shape := int(idx % MacroShapes)
+	idx /= MacroShapes
+	e2 := b.All[idx%int64(len(b.All))]
+	idx /= int64(len(b.All))
+	e1 := a.All[idx%int64(len(a.All))]
+	s := &Spec{Modes: []Mode{{}}, Macros: []Macro{{Name: "MA", Rx: e1}}}
+	ma := Ref("MA")
+	tok := func(i int, rx *Rx) Rule { return Rule{K: RToken, Name: fmt.Sprintf("T%d", i), Rx: rx} }
+	var rules []Rule
+	switch shape {
+	case 0: // the macro in two rules
+		rules = []Rule{tok(1, ma), tok(2, Cat(ma, e2))}
+	case 1: // twice in one rule
+		rules = []Rule{tok(1, Cat(ma, ma)), tok(2, e2)}
+	case 2: // nested in a second macro, both used
+		s.Macros = append(s.Macros, Macro{Name: "MB", Rx: Cat(ma, e2)})
+		rules = []Rule{tok(1, Alt(Ref("MB"), ma)), tok(2, e2)}
+	case 3: // under cardinalities
+		rules = []Rule{tok(1, Cat(Rep(ma, CStar), e2)), tok(2, Rep(ma, CPlus))}
+	case 4: // in a discarding fragment and in a token
+		rules = []Rule{{K: RFrag, Rx: ma, Actions: []Action{{K: ADiscard}}}, tok(1, Cat(e2, ma))}
+	case 5: // an alternative of macros, declared after use of the first
+		s.Macros = append(s.Macros, Macro{Name: "MB", Rx: e2})
+		rules = []Rule{tok(1, Alt(ma, Ref("MB"))), tok(2, Cat(Ref("MB"), ma))}
+	case 6: // optional macro between literals
+		rules = []Rule{tok(1, Cat(Lit("a"), Rep(ma, COpt), Lit("b"))), tok(2, e2)}
+	}
+	s.Modes[0].Rules = rules
+	return s
+}
